@@ -1,7 +1,7 @@
 (* C09 (integer part): the propagated annotation counts. *)
 From Coq Require Import String List Bool Arith ZArith Lia Setoid Permutation Relations Relation_Operators.
 From Hpotk Require Import Base.Result Base.Str Base.Ord TermId.Model TermId.Proofs Graph.Worklist Graph.Model Graph.Spec
-  Graph.Front Graph.ApiI Graph.Main Graph.Top Helpers.Model Helpers.Proofs Ic.Model.
+  Graph.Acyclic Graph.Front Graph.ApiI Graph.Main Graph.Top Helpers.Model Helpers.Proofs Ic.Model.
 Import ListNotations.
 Open Scope list_scope.
 
@@ -138,6 +138,18 @@ Proof.
   induction i as [|a i IH]; cbn [filter]; [reflexivity|]. destruct (snd a) eqn:S.
   - cbn [filter]. destruct (counts_for t a); cbn [length]; rewrite IH; reflexivity.
   - assert (E : counts_for t a = false) by (unfold counts_for; rewrite S; reflexivity). rewrite E. exact IH.
+Qed.
+
+(* the root is counted for every present annotation: no count exceeds the root's (whole ontology, no module) *)
+Theorem count_root_max (items : corpus) hs root t : m = None -> all_nodes items -> hits g m items = Ok hs ->
+  g_root g = Ok root -> kcount t hs <= kcount root hs.
+Proof.
+  intros Hm Hall Hh Hr. destruct (hits_count items Hall) as (hs' & Hh' & Hc). rewrite Hh in Hh'. inversion Hh'; subst hs'.
+  rewrite !Hc. apply filter_length_le. intros a Ha Hd. pose proof (Hall a Ha) as Hn.
+  apply (counts_for_iff t a Hn) in Hd. apply (counts_for_iff root a Hn). destruct Hd as (H1 & H2 & _ & _).
+  split; [exact H1|]. split; [exact H2|]. split; [rewrite Hm; reflexivity|].
+  destruct (root_spec f es g HW HC) as (root' & Hr' & _ & _ & _ & Hall' & _). rewrite Hr in Hr'. inversion Hr'; subst root'.
+  unfold up. destruct (key_eq_dec root (fst a)) as [E|E]; [left; exact E | right; apply Hall'; [exact Hn | intro E'; apply E; symmetry; exact E']].
 Qed.
 
 (* excluded annotations do not matter, nor does the order of items or of annotations *)
